@@ -48,7 +48,7 @@ static void print_objects(hwloc_topology_t t)
 }
 
 /* signature used by the round trip (what the property promises for this flag word) */
-static char *sig(hwloc_topology_t t, unsigned long flags)
+static char *sig(hwloc_topology_t t, unsigned long flags, int nomem)
 {
   size_t cap = 1 << 16, len = 0; char *b = malloc(cap);
   int depth = hwloc_topology_get_depth(t), d; hwloc_obj_t o;
@@ -67,7 +67,7 @@ static char *sig(hwloc_topology_t t, unsigned long flags)
     ADD("|N%u", hwloc_get_nbobjs_by_type(t, HWLOC_OBJ_NUMANODE));
     for (o = hwloc_get_obj_by_type(t, HWLOC_OBJ_NUMANODE, 0); o; o = o->next_cousin) {
       ADD(";w%d", hwloc_bitmap_weight(o->cpuset));
-      if (attrs) ADD("i%um%llu", o->os_index, (unsigned long long)o->attr->numanode.local_memory);
+      if (attrs) ADD("i%um%llu", o->os_index, nomem ? 0ULL : (unsigned long long)o->attr->numanode.local_memory);
     }
   }
   return b;
@@ -104,8 +104,12 @@ static void roundtrip(hwloc_topology_t t)
       printf("rt f=%lu FAIL reimport-rejected %s\n", flags, full);
       hwloc_topology_destroy(t2); free(full); continue;
     }
-    s1 = sig(t, flags); s2 = sig(t2, flags);
-    if (strcmp(s1, s2)) printf("rt f=%lu FAIL structure %s\n", flags, full);
+    s1 = sig(t, flags, 0); s2 = sig(t2, flags, 0);
+    if (strcmp(s1, s2)) {
+      char *m1 = sig(t, flags, 1), *m2 = sig(t2, flags, 1);
+      printf("rt f=%lu FAIL %s %s\n", flags, strcmp(m1, m2) ? "structure" : "structure-numa-memory-pairing", full);
+      free(m1); free(m2);
+    }
     else {
       int n2 = hwloc_topology_export_synthetic(t2, NULL, 0, flags);
       again = malloc(n2 >= 0 ? n2 + 1 : 1); again[0] = 0;
